@@ -117,8 +117,20 @@ def run(M, rep, tier, only=None):
     R5 = rep.rule("C08.R5", "bounds test: refuses missing/empty slices and stops beyond the extent", floor=6,
                   technique="decision-table extraction evaluated on representatives")
 
+    # the three private helpers: by name, else by role (what tagged_data calls) when a refactoring renamed / re-homed them
+    from .common import private_helper
+    argn = lambda h: [a.arg for a in h.node.args.args]
+    f_calc = private_helper(ctx, "Tag", "_calc_data_slices", [("Tag", "tagged_data", "methods")],
+                            pick=lambda h: "stop_rule" in argn(h))
+    f_inb = private_helper(ctx, "Tag", "_slices_in_data", [("Tag", "tagged_data", "methods")],
+                           pick=lambda h: "stop_rule" not in argn(h) and len([a for a in argn(h) if a != "self"]) == 2)
+    f_mcalc = private_helper(ctx, "MultiTag", "_calc_data_slices_mtag", [("MultiTag", "tagged_data", "methods")],
+                             pick=lambda h: "stop_rule" in argn(h) and h.cls is not None and h.cls.name == "MultiTag")
+    CALC = f_calc.node.name if f_calc else "_calc_data_slices"
+    INB = f_inb.node.name if f_inb else "_slices_in_data"
+
     # ---------------------------------------------------------------- R1
-    f = ctx.member("Tag", "_calc_data_slices")
+    f = f_calc
     if f is None:
         rep.bad(R1, "BaseTag._calc_data_slices", "required mechanism not found")
     else:
@@ -194,20 +206,21 @@ def run(M, rep, tier, only=None):
     # ---------------------------------------------------------------- R2
     octx = Ctx(M, coarse=False)
     octx.cfg.compose = False
-    octx.cfg.opaque["nixio.tag:BaseTag._calc_data_slices"] = None
-    octx.cfg.opaque["nixio.tag:BaseTag._slices_in_data"] = None
-    octx.cfg.opaque["nixio.multi_tag:MultiTag._calc_data_slices_mtag"] = None
+    for h_ in (f_calc, f_inb, f_mcalc):
+        if h_ is not None:
+            octx.cfg.opaque[h_.qual] = None
     mctx = Ctx(M, coarse=False)
     mctx.cfg.compose = False
-    mctx.cfg.opaque["nixio.tag:BaseTag._calc_data_slices"] = None
-    g = mctx.member("MultiTag", "_calc_data_slices_mtag")
+    if f_calc is not None:
+        mctx.cfg.opaque[f_calc.qual] = None
+    g = f_mcalc
     if g is None:
         rep.bad(R2, "MultiTag._calc_data_slices_mtag", "required mechanism not found")
     else:
         bad = None
         n = 0
         for p in mctx.paths(g, "MultiTag"):
-            calls = [e for e in p.events if e.kind == "ocall" and e.op.endswith("_calc_data_slices")]
+            calls = [e for e in p.events if e.kind == "ocall" and e.op.endswith("." + CALC)]
             if not calls:
                 if p.normal:
                     bad = (p, "a normal path does not compute the slices")
@@ -262,8 +275,8 @@ def run(M, rep, tier, only=None):
                     continue
                 n += 1
                 rv = p.terminal[1].t
-                calc = [e for e in p.events if e.kind == "ocall" and "_calc_data_slices" in e.op]
-                inb = [e for e in p.events if e.kind == "ocall" and e.op.endswith("_slices_in_data")]
+                calc = [e for e in p.events if e.kind == "ocall" and (e.op.endswith("." + CALC) or (f_mcalc is not None and e.op == f_mcalc.qual))]
+                inb = [e for e in p.events if e.kind == "ocall" and e.op.endswith("." + INB)]
                 txt = show(rv)
                 if lt == "Tagged":
                     if not calc or not inb:
@@ -304,7 +317,7 @@ def run(M, rep, tier, only=None):
             if not p.normal:
                 continue
             n += 1
-            calc = [e for e in p.events if e.kind == "ocall" and "_calc_data_slices" in e.op]
+            calc = [e for e in p.events if e.kind == "ocall" and (e.op.endswith("." + CALC) or (f_mcalc is not None and e.op == f_mcalc.qual))]
             if not calc:
                 bad = (p, "a view is returned without computing the tagged region")
                 continue
@@ -320,7 +333,7 @@ def run(M, rep, tier, only=None):
             if not sel:
                 bad = (p, "the reference index does not select the array whose data is returned")
             if cn == "Tag":
-                inb = [x for x in p.events if x.kind == "ocall" and x.op.endswith("_slices_in_data")]
+                inb = [x for x in p.events if x.kind == "ocall" and x.op.endswith("." + INB)]
                 empty = [v for a, v in p.decisions if a[0] == "truthy" and "all(" in show(a[1])]
                 if not inb and not (empty and empty[0] is False):
                     bad = (p, "a view is returned without the bounds refusal although the region is not empty")
@@ -330,7 +343,7 @@ def run(M, rep, tier, only=None):
     # ---------------------------------------------------------------- R5
     sctx = Ctx(M, coarse=False)
     sctx.cfg.compose = False
-    b = sctx.member("Tag", "_slices_in_data")
+    b = f_inb
     if b is None:
         rep.bad(R5, "BaseTag._slices_in_data", "required mechanism not found")
     else:
